@@ -12,15 +12,13 @@ def Good (full : List Char) (m : Match) : Prop :=
   (m.kind = .output → Located full m.start m.whole ∧ Located full m.bodyOff m.body) ∧
   (m.kind = .tag → Located full m.nameOff m.name ∧ Located full m.bodyOff m.body)
 
-theorem contentMatches_kind (pos : Nat) (s : List Char) (last rstrip : Bool) :
-    ∀ m ∈ contentMatches pos s last rstrip, m.kind = .content := by
+theorem contentMatches_kind (pos : Nat) (s : List Char) (rstrip : Bool) :
+    ∀ m ∈ contentMatches pos s rstrip, m.kind = .content := by
   intro m hm
   unfold contentMatches at hm
   split at hm
   · simp at hm
-  · split at hm <;> simp [contentMatch] at hm
-    · rcases hm with h | h <;> subst h <;> rfl
-    · subst hm; rfl
+  · simp [contentMatch] at hm; subst hm; rfl
 
 theorem good_of_kind {full : List Char} {m : Match} (h1 : m.kind ≠ .output) (h2 : m.kind ≠ .tag) : Good full m :=
   ⟨fun h => absurd h h1, fun h => absurd h h2⟩
@@ -41,7 +39,7 @@ theorem matchesOf_good (d : Delims) : ∀ (ps : List Piece) (pre : List Char),
     | text s =>
       simp only [matchesOf, List.mem_append] at hm
       rcases hm with h | h
-      · have hk := contentMatches_kind _ _ _ _ m h
+      · have hk := contentMatches_kind _ _ _ m h
         exact good_of_kind (by rw [hk]; decide) (by rw [hk]; decide)
       · exact tail s rfl h
     | out lw ws1 e ws2 rw =>
@@ -211,9 +209,7 @@ theorem matchesOf_sim (d d' : Delims) : ∀ (ps : List Piece) (pos pos' : Nat),
       unfold contentMatches
       split
       · exact .nil
-      · split
-        · exact .cons ⟨rfl, rfl, rfl, rfl, rfl, fun _ => rfl⟩ (.cons ⟨rfl, rfl, rfl, rfl, rfl, fun _ => rfl⟩ .nil)
-        · exact .cons ⟨rfl, rfl, rfl, rfl, rfl, fun _ => rfl⟩ .nil
+      · exact .cons ⟨rfl, rfl, rfl, rfl, rfl, fun _ => rfl⟩ .nil
     | out lw ws1 e ws2 rw =>
       simp only [matchesOf]
       exact .cons ⟨rfl, rfl, rfl, rfl, rfl, fun h => by simp [pieceMatch] at h⟩ (ih _ _)
